@@ -62,7 +62,7 @@ def gen_tree(rng, depth, under_best=False, top=False):
         return {"t": "everyn", "n": rng.choice([1, 2, 3, 4, 5, 7, 9, rng.randint(1, 12)]), "c": gen_tree(rng, depth - 1, under_best)}
     if k == "eval":
         return {"t": "eval", "freq": rng.choice([0, 1, 2, 2, 3, 5]), "evals": [rng.randint(-6, 6) for _ in range(rng.randint(0, 12))],
-                "ob": None if rng.random() < 0.3 else gen_tree(rng, depth - 1, True),
+                "ob": None if rng.random() < 0.3 else ({"t": "rec", "stop": rng.randint(1, 3)} if rng.random() < 0.35 else gen_tree(rng, depth - 1, True)),
                 "af": None if rng.random() < 0.3 else gen_tree(rng, depth - 1, under_best)}
     if k == "ckpt":
         return {"t": "ckpt", "freq": rng.randint(1, 7)}
@@ -363,6 +363,9 @@ def run_impl(case):
 
 
 def _worker(case):
+    import warnings
+
+    warnings.simplefilter("ignore")
     try:
         return run_impl(case)
     except Exception:  # noqa: BLE001
@@ -525,6 +528,30 @@ def oracle(case, impl):
                         if e[1] != nsteps or e[2] != re_[1]:
                             probs.append(("oracle-list-child-counters", f"recorder node {i}: step entry {e} but root step {re_} (#{nsteps})"))
                             break
+                    if e[0] == 0 and e[2] != re_[1]:
+                        probs.append(("oracle-list-child-counters", f"recorder node {i}: training-start entry {e} but the model's num_timesteps was {re_[1]}"))
+                        break
+    # StopTrainingOnMaxEpisodes / recorder stop requests that receive every step: the root must return False
+    for i in reach:
+        if specs[i]["t"] == "maxep":
+            cum, nd = 0, 0
+            for tr in impl["root_trace"]:
+                for e in tr:
+                    if e[0] == 9 and e[1] >= 0:
+                        nd = e[2]
+                    elif e[0] == 2:
+                        cum += nd
+                        if cum >= specs[i]["m"] * ne and e[3]:
+                            probs.append(("oracle-maxep-not-stopped", f"StopTrainingOnMaxEpisodes({specs[i]['m']}) node {i}: {cum} episodes ended on {ne} envs but the step event at num_timesteps {e[1]} returned True"))
+                            break
+        if specs[i]["t"] == "rec" and specs[i]["stop"] > 0:
+            k = 0
+            for tr in impl["root_trace"]:
+                for e in tr:
+                    if e[0] == 2:
+                        k += 1
+                        if k == specs[i]["stop"] and e[3]:
+                            probs.append(("oracle-stop-request-ignored", f"recorder node {i} returned False at its call {k} but the root step event returned True"))
     if not all(impl["locals_ok"]):
         probs.append(("oracle-locals-not-of-this-step", "a recorder's locals (new_obs/rewards/dones) differ from what env.step just returned"))
     # cadence of checkpoint / eval nodes: exactly the calls with n_calls % freq == 0
@@ -606,7 +633,7 @@ def compare(case, impl, mv):
     return probs
 
 
-def run_cases(chk, cases, procs=8):
+def run_cases(chk, cases, procs=4):
     import multiprocessing as mp
 
     ctx = mp.get_context("fork")
@@ -614,7 +641,7 @@ def run_cases(chk, cases, procs=8):
         impls = pool.map(_worker, cases, chunksize=1)
     ok = [i for i, im in enumerate(impls) if not im.get("error")]
     exprs = [model_expr(cases[i], impls[i]) for i in ok]
-    vals = common.coq_eval_many(chk.pid, HEADER, exprs, shard=12, procs=8) if exprs else []
+    vals = common.coq_eval_many(chk.pid, HEADER, exprs, shard=25, procs=4) if exprs else []
     results = [None] * len(cases)
     for i, v in zip(ok, vals):
         results[i] = oracle(cases[i], impls[i]) + [("model-correspondence-" + s, m) for s, m in compare(cases[i], impls[i], v)]
@@ -644,7 +671,7 @@ def report(chk, case, impl, probs):
 def main():
     chk = Check("C13", groups=["callbacks"])
     chk.build_props()
-    n_cases = 96 if chk.tier == "quick" else 1200
+    n_cases = 160 if chk.tier == "quick" else 1500
     cases = []
     corpus = os.path.join(common.VERIF, "corpus", "C13.jsonl")
     if os.path.exists(corpus):
